@@ -102,7 +102,10 @@ CLAIMED = {
          '(position of the central block pC, per-site canonical flags) never gets stuck in canonize_, holds at most one central block, refuses orthogonalize_site_ exactly '
          'when a block is pending, and after canonize_(to=last) from any state flags every site left-canonical; the composition rule of truncate_ '
          '(d2 + D2 - D2*d2 per cut) equals one minus the product of kept fractions for every number of cuts, stays in [0,1], and is zero iff nothing was discarded. '
-         'The machine is executed against real MPS/MPO for random move sequences (pC and refusals must agree; flagged sites must be isometries). NOT proved: that QR/SVD '
+         'The machine is executed against real MPS/MPO for random move sequences (pC and refusals must agree; flagged sites must be isometries). Also proved, over any '
+         'commutative ring: if the matrices of a site factor as A[s] = Q[s].R (resp. B[s] = L.Q[s]) then replacing (A,B) by (Q,R.B) (resp. (A.L,Q)) anywhere in a chain of '
+         'any length leaves EVERY amplitude unchanged, so does every finite sequence of such moves, and a central block on a bond equals its absorption into either '
+         'neighbour -- tied exactly to the real absorb_central_ on integer data (opcode 82); the premise A = Q.(nR C) is checked on every real orthogonalize_site_. NOT proved: that QR/SVD '
          'per block meet their specification and that projections along the sweep are orthogonal -- the dense state before/after every move (normalize on/off, factor), '
          'isometries, norm(), Schmidt values and entropies across every cut vs numpy SVD, single-cut truncation (largest values kept, weight, factor), and the reported '
          'discarded weight of binding sweeps vs the true relative distance are compared numerically for every operator family x symmetry, N=1..6, generic and '
@@ -130,7 +133,10 @@ CLAIMED = {
    text=('PARTIAL proof + exact correspondence. Proved in Coq for EVERY chain length >= 2, bond-dimension profile, local dimension and configuration: the direct-sum '
          'construction of MPS addition (amplitudes folded into the row-stacked first site, block-diagonal bulk, column-stacked last site) represents x*a + y*b amplitude '
          'by amplitude, via the transfer-vector recursion used for overlaps, with the block lemmas it rests on. The model (add2/amplitude) is executed on the exported site '
-         'matrices of real integer-valued MPS and must give the amplitudes of the real sum. NOT proved: MPO.MPS / MPO.MPO products, conj/transpose/H/reverse_sites, '
+         'matrices of real integer-valued MPS and must give the amplitudes of the real sum. Also proved, over any commutative ring: the site-wise Kronecker product '
+         'MPO.MPS (and MPO.MPO) has at every configuration the amplitude sum_sigma\' O(sigma,sigma\') psi(sigma\') (mixed-product property carried through the transfer '
+         'recursion; every N, bond profile, local dimension), tied exactly to the real O @ psi and O1 @ O2 on exported site matrices (opcodes 101, 102). '
+         'NOT proved: conj/transpose/H/reverse_sites, '
          'product states, overlaps, <a|O|b> incl. sums of MPOs: compared exactly with NumPy on dense vectors/matrices for every operator family x symmetry, N=1..5, '
          'non-unit factors and complex scalars, expression trees; zipper / compression / mps_from_tensor (SVD inside) within 1e-9.'),
    design_ref='DESIGN.md section 6 C06',
